@@ -2,6 +2,7 @@
 import disp_checks
 import tpl_checks
 import field_checks
+import pass_checks
 
 CORE_A = ["Model/Base.v", "Model/Dispatch.v", "Model/Routing.v", "Model/DispLane.v", "Gen/DispatchSrc.v", "Gen/ConvSrc.v",
           "Proofs/DispatchProofs.v", "Proofs/RoutingProofs.v", "Proofs/SrcObligations.v"]
@@ -45,6 +46,10 @@ def _c20(v, b, tier):
     field_checks.check_c20(v, tier)
 
 
+def _c15(v, b, tier):
+    pass_checks.check_c15(v, b.t1_summary, 60 * SIZES[tier])
+
+
 def _c10(v, b, tier):
     tpl_checks.check_c10(v, b.t1_summary, 60 * SIZES[tier], 5)
 
@@ -66,6 +71,12 @@ REGISTRY = {
             "rule": "exhaustive enumeration of the decision domain {converter?} x {prefer_attrib_converters} x {untyped, hook found, hook not found, hook found but "
                     "fails lazily} x class shapes (position of the attribute, 0-3 other attributes, default or not) x {Converter, BaseConverter} x validation mode x strategy; "
                     "every case is non-trivial; distinct = distinct configuration"},
+    "C15": {"props_file": "Props/C15.v", "files": ["Model/Base.v", "Model/Passthrough.v", "Gen/UnionsSrc.v", "Proofs/PassthroughProofs.v", "Props/C15.v"],
+            "run": _c15, "t1_sections": ["unions"],
+            "rule": "unions of 2-5 members drawn from classes {NoneType,str,bool,int,float,bytes, two attrs classes}, Literal[...] of look-alike values "
+                    "(0/False, 1/True, '', b'', None) and NewTypes; configured class sets S of 2-7 classes (30% the JSON set, 20% with an int subclass); "
+                    "18 probe values incl. 0/False/0.0, 1/True/1.0 and subclass instances; every rotation plus two random permutations of the members; "
+                    "non-trivial = union has >= 2 members; distinct = (union, S, value)"},
     "C10": {"props_file": "Props/C10.v", "files": CORE_TPL + ["Props/C10.v"], "run": _c10, "rule": RULE_TPL, "t1_sections": ["gen"]},
     "C07": {"props_file": "Props/C07.v", "files": CORE_A + ["Props/C07.v"], "run": _c07, "rule": RULE_DISP},
     "C08": {"props_file": "Props/C08.v", "files": CORE_A + ["Props/C08.v"], "run": _c08, "rule": RULE_DISP},
